@@ -305,7 +305,7 @@ var registry = func() []regEntry {
 		{nm("alpha", "Float32"), rtOf[alpha.Float32]()}, {nm("alpha", "Float64"), rtOf[alpha.Float64]()}, {nm("alpha", "String"), rtOf[alpha.String]()}, {nm("alpha", "Rune"), rtOf[alpha.Rune]()},
 		{nm("alpha", "Byte"), rtOf[alpha.Byte]()}, {nm("alpha", "Strings"), rtOf[alpha.Strings]()}, {nm("alpha", "IntMap"), rtOf[alpha.IntMap]()}, {nm("alpha", "Arr"), rtOf[alpha.Arr]()},
 		{nm("alpha", "Matrix"), rtOf[alpha.Matrix]()}, {nm("alpha", "Point"), rtOf[alpha.Point]()}, {nm("alpha", "Same"), rtOf[alpha.Same]()}, {nm("alpha", "Named"), rtOf[alpha.Named]()},
-		{nm("alpha", "Embedded"), rtOf[alpha.Embedded]()}, {nm("alpha", "Wide"), rtOf[alpha.Wide]()},
+		{nm("alpha", "Embedded"), rtOf[alpha.Embedded]()}, {nm("alpha", "Wide"), rtOf[alpha.Wide]()}, {nm("alpha", "PointRef"), rtOf[alpha.PointRef]()},
 		{nm("beta", "Kind"), rtOf[betav1.Kind]()}, {nm("beta", "Same"), rtOf[betav1.Same]()}, {nm("beta", "Spec"), rtOf[betav1.Spec]()},
 		{nm("gamma", "Same"), rtOf[gammav1.Same]()}, {nm("gamma", "Level"), rtOf[gammav1.Level]()}, {nm("gamma", "Status"), rtOf[gammav1.Status]()},
 		{nm("delta", "Mixed"), rtOf[delta.Mixed]()}, {nm("delta", "Either"), rtOf[delta.Either]()},
@@ -518,6 +518,9 @@ func genType(t *rapid.T, depth int) *tn {
 	case 1, 2:
 		return genInst(t, rapid.IntRange(1, 3).Draw(t, "instlevels"))
 	case 3:
+		if rapid.IntRange(0, 3).Draw(t, "ptrtonamedptr") == 0 {
+			return &tn{K: "ptr", Elem: nm("alpha", "PointRef")} // a pointer to a defined pointer type
+		}
 		return &tn{K: "ptr", Elem: genType(t, depth-1)}
 	case 4:
 		return &tn{K: "slice", Elem: genType(t, depth-1)}
